@@ -97,7 +97,38 @@ def claimed():
     return [c["property_id"] for c in m["checks"]]
 
 
+def run_one(pd, props):
+    d = os.path.dirname(pd)
+    sid = os.path.basename(d)
+    meta = json.load(open(os.path.join(d, "meta.json")))
+    prop = meta["property"]
+    wt = worktree()
+    try:
+        rc, out = sh(f"git apply {pd}", cwd=wt)
+        if rc != 0:
+            return sid, {"property": prop, "status": "patch no longer applies", "detected_by": []}
+        rc, out = sh(f"bin/evycheck -all -no-evidence -repo {wt}", cwd=ROOT)
+        detected = sorted(set(l.split("property=")[1].split()[0] for l in out.splitlines() if l.startswith("VIOLATION property=")))
+        undecided = sorted(set(l.split("property=")[1].split()[0] for l in out.splitlines() if l.startswith("UNDECIDED property=")))
+        detected = [p for p in detected if p in props]
+        undecided = [p for p in undecided if p in props and p not in detected]
+        lines = []
+        seen = set()
+        for l in out.splitlines():
+            if ": R-" in l and not l.startswith(("EXEMPT", "KNOWN", "  ")):
+                key = l.split(": R-", 1)[1][:120]
+                if key not in seen:
+                    seen.add(key)
+                    lines.append(l.replace(wt + "/", ""))
+        status = "detected" if prop in detected else ("detected-by-other" if detected else ("undecided" if undecided else "missed"))
+        return sid, {"property": prop, "status": status, "detected_by": detected, "undecided": undecided,
+                     "summary": meta.get("summary", ""), "report": lines[:4]}
+    finally:
+        drop(wt)
+
+
 def run(ids):
+    from concurrent.futures import ThreadPoolExecutor
     sh("go build -o bin/evycheck ./cmd/evycheck", cwd=ROOT)
     dirs = sorted(glob.glob(os.path.join(ROOT, "seeded", "*", "patch.diff")))
     props = claimed()
@@ -105,44 +136,18 @@ def run(ids):
     respath = os.path.join(ROOT, "seeded", "RESULTS.json")
     if os.path.exists(respath) and ids:
         results = json.load(open(respath))
-    for pd in dirs:
-        d = os.path.dirname(pd)
-        sid = os.path.basename(d)
-        if ids and sid not in ids:
-            continue
-        meta = json.load(open(os.path.join(d, "meta.json")))
-        prop = meta["property"]
-        wt = worktree()
-        try:
-            rc, out = sh(f"git apply {pd}", cwd=wt)
-            if rc != 0:
-                results[sid] = {"property": prop, "status": "patch no longer applies", "detected_by": []}
-                print(f"{sid:12s} {prop} PATCH-DOES-NOT-APPLY")
-                continue
-            detected, undecided, lines = [], [], []
-            order = [prop] + [p for p in props if p != prop]
-            for pid in order:
-                if pid not in props:
-                    continue
-                rc, out = sh(f"bin/evycheck -property {pid} -no-evidence -repo {wt}", cwd=ROOT)
-                if rc == 1:
-                    detected.append(pid)
-                    lines += [l for l in out.splitlines() if ": R-" in l and not l.startswith(("EXEMPT", "KNOWN"))][:3]
-                elif rc != 0:
-                    undecided.append(pid)
-                    lines += [l for l in out.splitlines() if l.startswith("UNDECIDED")][:2]
-            status = "detected" if prop in detected else ("detected-by-other" if detected else ("undecided" if undecided else "missed"))
-            results[sid] = {"property": prop, "status": status, "detected_by": detected, "undecided": undecided,
-                            "summary": meta.get("summary", ""), "report": [l.replace(wt + "/", "") for l in lines]}
-            print(f"{sid:12s} {prop} {status:18s} by={detected} undecided={undecided}")
-            for l in lines[:2]:
-                print("     ", l.replace(wt + "/", "")[:220])
-        finally:
-            drop(wt)
+    todo = [pd for pd in dirs if not ids or os.path.basename(os.path.dirname(pd)) in ids]
+    with ThreadPoolExecutor(max_workers=4) as ex:
+        for sid, res in ex.map(lambda pd: run_one(pd, props), todo):
+            results[sid] = res
+            print(f"{sid:12s} {res['property']} {res['status']:18s} by={res['detected_by']} undecided={res.get('undecided', [])}", flush=True)
+            for l in res.get("report", [])[:2]:
+                print("     ", l[:230], flush=True)
     json.dump(results, open(respath, "w"), indent=1, sort_keys=True)
     tot = len(results)
     det = sum(1 for r in results.values() if r["status"].startswith("detected"))
-    print(f"{det}/{tot} seeded changes detected")
+    own = sum(1 for r in results.values() if r["status"] == "detected")
+    print(f"{det}/{tot} seeded changes detected ({own} by the check of their own property)")
 
 
 if __name__ == "__main__":
